@@ -554,156 +554,161 @@ def _defined(cls: ast.ClassDef) -> set:
 
 
 def check_arguments(ctx, mod, consts):
-    args = _argument_classes(mod)
-    ctx.floor("argument/pairing", len(args), 12, "Argument subclasses")
-    for c in args:
-        d = _defined(c)
-        for a, b in PAIRS:
-            if (a in d) == (b in d):
-                if a in d:
-                    ctx.ok("argument/pairing", f"{QA}.{c.name} | {a}/{b}")
-                continue
-            lone = a if a in d else b
-            if (c.name, lone) in PAIR_EXCEPTIONS:
-                ctx.ok("argument/pairing", f"{QA}.{c.name} | {a}/{b}", "documented exception: " + PAIR_EXCEPTIONS[(c.name, lone)])
-                continue
-            ctx.violation("argument/pairing", f"{QA}.{c.name} | {a}/{b}",
-                          f"{c.name} overrides {lone} but inherits {b if lone == a else a} from its base: the two directions no longer use the same encoding")
+    classes = {n.name: n for n in mod.tree.body if isinstance(n, ast.ClassDef)}
+    with ctx.section("argument pairing"):
+        args = _argument_classes(mod)
+        ctx.floor("argument/pairing", len(args), 12, "Argument subclasses")
+        for c in args:
+            d = _defined(c)
+            for a, b in PAIRS:
+                if (a in d) == (b in d):
+                    if a in d:
+                        ctx.ok("argument/pairing", f"{QA}.{c.name} | {a}/{b}")
+                    continue
+                lone = a if a in d else b
+                if (c.name, lone) in PAIR_EXCEPTIONS:
+                    ctx.ok("argument/pairing", f"{QA}.{c.name} | {a}/{b}", "documented exception: " + PAIR_EXCEPTIONS[(c.name, lone)])
+                    continue
+                ctx.violation("argument/pairing", f"{QA}.{c.name} | {a}/{b}",
+                              f"{c.name} overrides {lone} but inherits {b if lone == a else a} from its base: the two directions no longer use the same encoding")
 
     # --- finite evaluation of the leaf conversions ------------------------------------------------------------
-    def _native(x):
-        return x.decode("ascii") if isinstance(x, bytes) else x
+    with ctx.section("argument value round trips"):
+        def _native(x):
+            return x.decode("ascii") if isinstance(x, bytes) else x
 
-    ev = MiniEval(mod, helpers={"nativeString": _native, "decimal.Decimal": decimal.Decimal})
-    D = decimal.Decimal
-    samples = {
-        "Decimal": [D("0"), D("-0"), D("1.5"), D("1.50"), D("1E+2"), D("-1E-7"), D("Infinity"), D("-Infinity"), D("NaN"), D("-sNaN"), D("123456789012345678901234567890.5")],
-        "Integer": [0, 1, -1, 255, 2 ** 64, -(2 ** 200), 10 ** 30],
-        "String": [b"", b"a", b"\x00\xff", b"x" * 300],
-        "Unicode": ["", "a", "\u00e9", "\u20ac", "\U0001f600", "a\x00b", "\ud7ff"],
-        "Boolean": [True, False],
-        "Float": [0.0, -0.0, 1.5, 0.1, 1e300, 5e-324, float("inf"), float("-inf"), float("nan"), -2.5e-10],
-    }
-    classes = {n.name: n for n in mod.tree.body if isinstance(n, ast.ClassDef)}
-    for cname, vals in samples.items():
-        c = classes.get(cname)
-        if c is None:
-            _fail(f"argument class {cname} vanished")
-        inst = Inst(c)
-        bad = None
-        encs = {}
-        for v in vals:
-            k1, s = run_eval(lambda: ev.method(inst, "toString", [v]))
-            if k1 == "unsupported":
-                _fail(f"{cname}.toString uses a construct outside the evaluated subset: {s}")
-            if k1 == "raised" or not isinstance(s, bytes):
-                bad = bad or f"{cname}().toString({v!r}) gives {s!r} ({k1}); a byte string is required"
-                continue
-            k2, back = run_eval(lambda: ev.method(inst, "fromString", [s]))
-            if k2 == "unsupported":
-                _fail(f"{cname}.fromString uses a construct outside the evaluated subset: {back}")
-            if isinstance(v, decimal.Decimal):
-                same = k2 == "value" and isinstance(back, decimal.Decimal) and back.as_tuple() == v.as_tuple()
-            else:
-                same = k2 == "value" and type(back) is type(v) and (back == v or (isinstance(v, float) and math.isnan(v) and math.isnan(back)))
-            if same and isinstance(v, float) and v == 0.0:
-                same = math.copysign(1.0, v) == math.copysign(1.0, back)
-            if not same:
-                bad = bad or f"{cname}: {v!r} is encoded as {s!r} and decoded as {back!r} ({k2})"
-            encs.setdefault(s, v)
-        if not bad and len(encs) != len(vals) and cname != "Float":
-            bad = f"{cname}: two different values share one encoding"
-        ctx.check(bad is None, "argument/value-round-trip", f"{QA}.{cname} | toString/fromString", bad or "", detail=f"{len(vals)} representative values")
+        ev = MiniEval(mod, helpers={"nativeString": _native, "decimal.Decimal": decimal.Decimal})
+        D = decimal.Decimal
+        samples = {
+            "Decimal": [D("0"), D("-0"), D("1.5"), D("1.50"), D("1E+2"), D("-1E-7"), D("Infinity"), D("-Infinity"), D("NaN"), D("-sNaN"), D("123456789012345678901234567890.5")],
+            "Integer": [0, 1, -1, 255, 2 ** 64, -(2 ** 200), 10 ** 30],
+            "String": [b"", b"a", b"\x00\xff", b"x" * 300],
+            "Unicode": ["", "a", "\u00e9", "\u20ac", "\U0001f600", "a\x00b", "\ud7ff"],
+            "Boolean": [True, False],
+            "Float": [0.0, -0.0, 1.5, 0.1, 1e300, 5e-324, float("inf"), float("-inf"), float("nan"), -2.5e-10],
+        }
+        for cname, vals in samples.items():
+            c = classes.get(cname)
+            if c is None:
+                _fail(f"argument class {cname} vanished")
+            inst = Inst(c)
+            bad = None
+            encs = {}
+            for v in vals:
+                k1, s = run_eval(lambda: ev.method(inst, "toString", [v]))
+                if k1 == "unsupported":
+                    _fail(f"{cname}.toString uses a construct outside the evaluated subset: {s}")
+                if k1 == "raised" or not isinstance(s, bytes):
+                    bad = bad or f"{cname}().toString({v!r}) gives {s!r} ({k1}); a byte string is required"
+                    continue
+                k2, back = run_eval(lambda: ev.method(inst, "fromString", [s]))
+                if k2 == "unsupported":
+                    _fail(f"{cname}.fromString uses a construct outside the evaluated subset: {back}")
+                if isinstance(v, decimal.Decimal):
+                    same = k2 == "value" and isinstance(back, decimal.Decimal) and back.as_tuple() == v.as_tuple()
+                else:
+                    same = k2 == "value" and type(back) is type(v) and (back == v or (isinstance(v, float) and math.isnan(v) and math.isnan(back)))
+                if same and isinstance(v, float) and v == 0.0:
+                    same = math.copysign(1.0, v) == math.copysign(1.0, back)
+                if not same:
+                    bad = bad or f"{cname}: {v!r} is encoded as {s!r} and decoded as {back!r} ({k2})"
+                encs.setdefault(s, v)
+            if not bad and len(encs) != len(vals) and cname != "Float":
+                bad = f"{cname}: two different values share one encoding"
+            ctx.check(bad is None, "argument/value-round-trip", f"{QA}.{cname} | toString/fromString", bad or "", detail=f"{len(vals)} representative values")
 
     # --- ListOf element framing --------------------------------------------------------------------------------------
-    lo = classes.get("ListOf") or _fail("ListOf vanished")
-    ts = methods(lo).get("toString")
-    fs = methods(lo).get("fromString")
-    if ts is None or fs is None:
-        _fail("ListOf.toString/fromString vanished")
-    q = QA + ".ListOf"
-    acc_ret = [st for st in statements(ts) if isinstance(st, ast.Return)]
-    acc = None
-    for r in acc_ret:
-        v = r.value
-        if isinstance(v, ast.Call) and isinstance(v.func, ast.Attribute) and v.func.attr == "join" and v.args and isinstance(v.args[0], ast.Name):
-            acc = v.args[0].id
-    loops = [st for st in ts.body if isinstance(st, ast.For) and isinstance(st.target, ast.Name)]
-    if acc is None or len(loops) != 1:
-        _fail("ListOf.toString: shape not recognised")
-    aliases, _ = _emit_calls(ts, acc)
-    lay: List[Tuple] = []
-    ldefs = {}
-    for st in loops[0].body:
-        if isinstance(st, ast.Assign) and len(st.targets) == 1 and isinstance(st.targets[0], ast.Name):
-            ldefs[st.targets[0].id] = st.value
-    _layout(loops[0].body, aliases, acc, {}, consts, lay)
-    parser_cls = None
-    for st in statements(fs):
-        if isinstance(st, ast.Assign) and isinstance(st.value, ast.Call) and isinstance(st.value.func, ast.Name) and st.value.func.id.endswith("StringReceiver"):
-            parser_cls = st.value.func.id
-    bmod = ctx.mod(BASIC)
-    pc = bmod.find(parser_cls) if parser_cls else None
-    pfmt = class_const(bmod, pc, "structFormat", {}) if isinstance(pc, ast.ClassDef) else None
-    ok = len(lay) == 2 and lay[0][0] == "len" and lay[1][0] == "raw" and lay[0][2] == lay[1][1] and lay[0][1] == pfmt
-    ctx.check(ok, "argument/list-framing", q + " | <element framing>",
-              f"ListOf.toString writes {lay!r} per element; ListOf.fromString parses with {parser_cls} (format {pfmt!r}): each element must be its "
-              "length in that format followed by its bytes")
-    if len(lay) == 2 and lay[1][0] == "raw":
-        elem = ldefs.get(lay[1][1])
-        ctx.check(elem is not None and isinstance(elem, ast.Call) and call_name(elem) == "self.elementType.toString" and
-                  len(elem.args) == 1 and src(elem.args[0]) == loops[0].target.id, "argument/list-framing", q + " | <element encoder>",
-                  "list elements are not encoded with self.elementType.toString(element)")
-    dec = [n for n in ast.walk(fs) if isinstance(n, ast.Attribute) and src(n) == "self.elementType.fromString"]
-    feed = [c for c in ast.walk(fs) if isinstance(c, ast.Call) and call_attr(c) == "dataReceived" and [src(a) for a in c.args] == [fs.args.args[1].arg]]
-    ctx.check(bool(dec) and bool(feed), "argument/list-framing", q + " | <element decoder>",
-              "ListOf.fromString does not feed the whole string to the length-prefix parser and decode each element with self.elementType.fromString")
+    with ctx.section("ListOf framing"):
+        lo = classes.get("ListOf") or _fail("ListOf vanished")
+        ts = methods(lo).get("toString")
+        fs = methods(lo).get("fromString")
+        if ts is None or fs is None:
+            _fail("ListOf.toString/fromString vanished")
+        q = QA + ".ListOf"
+        acc_ret = [st for st in statements(ts) if isinstance(st, ast.Return)]
+        acc = None
+        for r in acc_ret:
+            v = r.value
+            if isinstance(v, ast.Call) and isinstance(v.func, ast.Attribute) and v.func.attr == "join" and v.args and isinstance(v.args[0], ast.Name):
+                acc = v.args[0].id
+        loops = [st for st in ts.body if isinstance(st, ast.For) and isinstance(st.target, ast.Name)]
+        if acc is None or len(loops) != 1:
+            _fail("ListOf.toString: shape not recognised")
+        aliases, _ = _emit_calls(ts, acc)
+        lay: List[Tuple] = []
+        ldefs = {}
+        for st in loops[0].body:
+            if isinstance(st, ast.Assign) and len(st.targets) == 1 and isinstance(st.targets[0], ast.Name):
+                ldefs[st.targets[0].id] = st.value
+        _layout(loops[0].body, aliases, acc, {}, consts, lay)
+        parser_cls = None
+        for st in statements(fs):
+            if isinstance(st, ast.Assign) and isinstance(st.value, ast.Call) and isinstance(st.value.func, ast.Name) and st.value.func.id.endswith("StringReceiver"):
+                parser_cls = st.value.func.id
+        bmod = ctx.mod(BASIC)
+        pc = bmod.find(parser_cls) if parser_cls else None
+        pfmt = class_const(bmod, pc, "structFormat", {}) if isinstance(pc, ast.ClassDef) else None
+        ok = len(lay) == 2 and lay[0][0] == "len" and lay[1][0] == "raw" and lay[0][2] == lay[1][1] and lay[0][1] == pfmt
+        ctx.check(ok, "argument/list-framing", q + " | <element framing>",
+                  f"ListOf.toString writes {lay!r} per element; ListOf.fromString parses with {parser_cls} (format {pfmt!r}): each element must be its "
+                  "length in that format followed by its bytes")
+        if len(lay) == 2 and lay[1][0] == "raw":
+            elem = ldefs.get(lay[1][1])
+            ctx.check(elem is not None and isinstance(elem, ast.Call) and call_name(elem) == "self.elementType.toString" and
+                      len(elem.args) == 1 and src(elem.args[0]) == loops[0].target.id, "argument/list-framing", q + " | <element encoder>",
+                      "list elements are not encoded with self.elementType.toString(element)")
+        dec = [n for n in ast.walk(fs) if isinstance(n, ast.Attribute) and src(n) == "self.elementType.fromString"]
+        feed = [c for c in ast.walk(fs) if isinstance(c, ast.Call) and call_attr(c) == "dataReceived" and [src(a) for a in c.args] == [fs.args.args[1].arg]]
+        ctx.check(bool(dec) and bool(feed), "argument/list-framing", q + " | <element decoder>",
+                  "ListOf.fromString does not feed the whole string to the length-prefix parser and decode each element with self.elementType.fromString")
 
     # --- AmpList and toBox/fromBox key symmetry ----------------------------------------------------------------------------
-    al = classes.get("AmpList") or _fail("AmpList vanished")
-    tsp, fsp = methods(al).get("toStringProto"), methods(al).get("fromStringProto")
-    if tsp is None or fsp is None:
-        _fail("AmpList.toStringProto/fromStringProto vanished")
-    enc = [c for c in ast.walk(tsp) if isinstance(c, ast.Call) and call_name(c) == "_objectsToStrings"]
-    decs = [c for c in ast.walk(fsp) if isinstance(c, ast.Call) and call_name(c) == "_stringsToObjects"]
-    ser = [c for c in ast.walk(tsp) if isinstance(c, ast.Call) and call_attr(c) == "serialize"]
-    par = [c for c in ast.walk(fsp) if isinstance(c, ast.Call) and call_name(c) in ("parseString", "parse")]
-    ok = len(enc) == 1 and len(decs) == 1 and len(enc[0].args) >= 2 and len(decs[0].args) >= 2 and src(enc[0].args[1]) == src(decs[0].args[1]) == "self.subargs" \
-        and bool(ser) and bool(par)
-    ctx.check(ok, "argument/amplist", QA + ".AmpList | <schema both ways>",
-              "AmpList does not encode with _objectsToStrings(..., self.subargs, ...).serialize() and decode with parseString + _stringsToObjects(box, self.subargs, ...)")
-    for fname, meth in (("_stringsToObjects", "fromBox"), ("_objectsToStrings", "toBox")):
-        fn = ctx.func(AMP, fname)
-        loops2 = [st for st in fn.body if isinstance(st, ast.For) and isinstance(st.target, ast.Tuple) and len(st.target.elts) == 2]
-        ok = False
-        if len(loops2) == 1 and src(loops2[0].iter) == fn.args.args[1].arg:
-            nm, parser = [e.id for e in loops2[0].target.elts]
-            cs = [c for c in ast.walk(loops2[0]) if isinstance(c, ast.Call) and call_name(c) == f"{parser}.{meth}"]
-            ok = len(cs) == 1 and cs[0].args and src(cs[0].args[0]) == nm
-        ctx.check(ok, "argument/box-keys", f"{QA}.{fname}", f"{fname} does not call <argument>.{meth}(<its own name>, ...) for every entry of the schema")
-    arg = classes.get("Argument") or _fail("Argument vanished")
-    tb, fb = methods(arg).get("toBox"), methods(arg).get("fromBox")
-    if tb is None or fb is None:
-        _fail("Argument.toBox/fromBox vanished")
-    nm_t, st_t, ob_t = [a.arg for a in tb.args.args[1:4]]
-    nm_f, st_f, ob_f = [a.arg for a in fb.args.args[1:4]]
-    tdefs, fdefs = single_defs(tb), single_defs(fb)
-    w = [st for st in statements(tb) if isinstance(st, ast.Assign) and isinstance(st.targets[0], ast.Subscript) and src(st.targets[0].value) == st_t]
-    ok_w = len(w) == 1 and src(w[0].targets[0].slice) == nm_t and isinstance(w[0].value, ast.Call) and call_name(w[0].value) == "self.toStringProto"
-    r_t = [c for c in ast.walk(tb) if isinstance(c, ast.Call) and call_name(c) == "self.retrieve"]
-    ok_rt = len(r_t) == 1 and src(r_t[0].args[0]) == ob_t and src(expand(r_t[0].args[1], tdefs)) == f"_wireNameToPythonIdentifier({nm_t})"
-    r_f = [c for c in ast.walk(fb) if isinstance(c, ast.Call) and call_name(c) == "self.retrieve"]
-    ok_rf = len(r_f) == 1 and src(r_f[0].args[0]) == st_f and src(r_f[0].args[1]) == nm_f
-    wf = [st for st in statements(fb) if isinstance(st, ast.Assign) and isinstance(st.targets[0], ast.Subscript) and src(st.targets[0].value) == ob_f]
-    ok_wf = bool(wf) and all(src(expand(st.targets[0].slice, fdefs)) == f"_wireNameToPythonIdentifier({nm_f})" for st in wf) and \
-        any(isinstance(st.value, ast.Call) and call_name(st.value) == "self.fromStringProto" for st in wf)
-    ctx.check(ok_w and ok_rf, "argument/box-keys", QA + ".Argument | <wire key>",
-              "toBox stores the encoded string under `name` and fromBox retrieves it under `name`: this no longer holds")
-    ctx.check(ok_rt and ok_wf, "argument/box-keys", QA + ".Argument | <python key>",
-              "toBox reads the object under _wireNameToPythonIdentifier(name) and fromBox stores it under the same identifier: this no longer holds")
+    with ctx.section("AmpList / box keys"):
+        al = classes.get("AmpList") or _fail("AmpList vanished")
+        tsp, fsp = methods(al).get("toStringProto"), methods(al).get("fromStringProto")
+        if tsp is None or fsp is None:
+            _fail("AmpList.toStringProto/fromStringProto vanished")
+        enc = [c for c in ast.walk(tsp) if isinstance(c, ast.Call) and call_name(c) == "_objectsToStrings"]
+        decs = [c for c in ast.walk(fsp) if isinstance(c, ast.Call) and call_name(c) == "_stringsToObjects"]
+        ser = [c for c in ast.walk(tsp) if isinstance(c, ast.Call) and call_attr(c) == "serialize"]
+        par = [c for c in ast.walk(fsp) if isinstance(c, ast.Call) and call_name(c) in ("parseString", "parse")]
+        ok = len(enc) == 1 and len(decs) == 1 and len(enc[0].args) >= 2 and len(decs[0].args) >= 2 and src(enc[0].args[1]) == src(decs[0].args[1]) == "self.subargs" \
+            and bool(ser) and bool(par)
+        ctx.check(ok, "argument/amplist", QA + ".AmpList | <schema both ways>",
+                  "AmpList does not encode with _objectsToStrings(..., self.subargs, ...).serialize() and decode with parseString + _stringsToObjects(box, self.subargs, ...)")
+        for fname, meth in (("_stringsToObjects", "fromBox"), ("_objectsToStrings", "toBox")):
+            fn = ctx.func(AMP, fname)
+            loops2 = [st for st in fn.body if isinstance(st, ast.For) and isinstance(st.target, ast.Tuple) and len(st.target.elts) == 2]
+            ok = False
+            if len(loops2) == 1 and src(loops2[0].iter) == fn.args.args[1].arg:
+                nm, parser = [e.id for e in loops2[0].target.elts]
+                cs = [c for c in ast.walk(loops2[0]) if isinstance(c, ast.Call) and call_name(c) == f"{parser}.{meth}"]
+                ok = len(cs) == 1 and cs[0].args and src(cs[0].args[0]) == nm
+            ctx.check(ok, "argument/box-keys", f"{QA}.{fname}", f"{fname} does not call <argument>.{meth}(<its own name>, ...) for every entry of the schema")
+        arg = classes.get("Argument") or _fail("Argument vanished")
+        tb, fb = methods(arg).get("toBox"), methods(arg).get("fromBox")
+        if tb is None or fb is None:
+            _fail("Argument.toBox/fromBox vanished")
+        nm_t, st_t, ob_t = [a.arg for a in tb.args.args[1:4]]
+        nm_f, st_f, ob_f = [a.arg for a in fb.args.args[1:4]]
+        tdefs, fdefs = single_defs(tb), single_defs(fb)
+        w = [st for st in statements(tb) if isinstance(st, ast.Assign) and isinstance(st.targets[0], ast.Subscript) and src(st.targets[0].value) == st_t]
+        ok_w = len(w) == 1 and src(w[0].targets[0].slice) == nm_t and isinstance(w[0].value, ast.Call) and call_name(w[0].value) == "self.toStringProto"
+        r_t = [c for c in ast.walk(tb) if isinstance(c, ast.Call) and call_name(c) == "self.retrieve"]
+        ok_rt = len(r_t) == 1 and src(r_t[0].args[0]) == ob_t and src(expand(r_t[0].args[1], tdefs)) == f"_wireNameToPythonIdentifier({nm_t})"
+        r_f = [c for c in ast.walk(fb) if isinstance(c, ast.Call) and call_name(c) == "self.retrieve"]
+        ok_rf = len(r_f) == 1 and src(r_f[0].args[0]) == st_f and src(r_f[0].args[1]) == nm_f
+        wf = [st for st in statements(fb) if isinstance(st, ast.Assign) and isinstance(st.targets[0], ast.Subscript) and src(st.targets[0].value) == ob_f]
+        ok_wf = bool(wf) and all(src(expand(st.targets[0].slice, fdefs)) == f"_wireNameToPythonIdentifier({nm_f})" for st in wf) and \
+            any(isinstance(st.value, ast.Call) and call_name(st.value) == "self.fromStringProto" for st in wf)
+        ctx.check(ok_w and ok_rf, "argument/box-keys", QA + ".Argument | <wire key>",
+                  "toBox stores the encoded string under `name` and fromBox retrieves it under `name`: this no longer holds")
+        ctx.check(ok_rt and ok_wf, "argument/box-keys", QA + ".Argument | <python key>",
+                  "toBox reads the object under _wireNameToPythonIdentifier(name) and fromBox stores it under the same identifier: this no longer holds")
 
     # --- DateTime layout ----------------------------------------------------------------------------------------------------------
-    check_datetime(ctx, mod, classes)
+    with ctx.section("DateTime layout"):
+        check_datetime(ctx, mod, classes)
 
 
 def _parse_percent(fmt: str) -> Optional[List[Tuple[str, int, int]]]:
@@ -871,10 +876,13 @@ def check(ctx):
     reader_fmt = class_const(bmod, i16, "structFormat", {})
     if not isinstance(reader_fmt, str):
         _fail("Int16StringReceiver.structFormat is not a constant string")
-    check_serialize(ctx, mod, consts, reader_fmt)
-    check_reader(ctx, mod, consts, reader_fmt)
-    check_framing(ctx, reader_fmt)
-    check_arguments(ctx, mod, consts)
+    with ctx.section("AmpBox.serialize"):
+        check_serialize(ctx, mod, consts, reader_fmt)
+    with ctx.section("BinaryBoxProtocol reader"):
+        check_reader(ctx, mod, consts, reader_fmt)
+    with ctx.section("IntNStringReceiver framing"):
+        check_framing(ctx, reader_fmt)
+    check_arguments(ctx, mod, consts)     # one section per rule group inside
 
 
 _SER_GUARDS = ("            if len(k) > MAX_KEY_LENGTH:\n                raise TooLong(True, True, k, None)\n"
